@@ -6,7 +6,7 @@ from hypothesis import strategies as st
 import gen_text
 from execclient import Script, hx, by_index
 from runner import Failure, Outcome, h64
-from schema import HAND, emit_schema, F_COMMENTS, F_IGNORE_UNKNOWN, F_NOCASE
+from schema import HAND, emit_schema, F_COMMENTS, F_IGNORE_UNKNOWN, F_NOCASE, F_KEYSTRVAL
 
 FIXTURE_FILES = {
     "inc_ok.conf": "i = 11\n",
@@ -205,6 +205,16 @@ class C02:
                               ("path-second-step", [X("single|"), R(n, "a"), X("|x = 1")])):
                 shapes.append({"schema": "mixed", "flags": 0, "via": "buf", "text": parts, "shape": "small-stack-%s-2e%d" % (nm, k), "stack": 262144})
                 shapes.append({"schema": "mixed", "flags": F_IGNORE_UNKNOWN, "via": "buf", "text": parts, "shape": "small-stack-%s-2e%d" % (nm, k), "stack": 262144})
+        # every count of *distinct* items up to 80 and a few large ones: tables that grow by an item at a time (free-form
+        # keys, section instances, list elements, ignored names) have their boundaries at small multiples
+        for n in list(range(1, 81)) + [127, 128, 129, 255, 256, 257, 1000, 4097]:
+            keys = "".join("k%d = v%d\n" % (i, i) for i in range(n))
+            add("distinct-keys-%d" % n, [X("kv {\n" + keys + "}\n")], schemas=("mixed",), flagsets=(0,))
+            add("distinct-keys-%d" % n, [X("kv {\n" + keys + "}\nkvn { " + keys.replace("\n", " ") + "}\nkvm t { " + keys + "} kvm u { " + keys + "k0 = again }\n")],
+                schemas=("keyval",), flagsets=(0, F_COMMENTS))
+            add("distinct-keys-root-%d" % n, [X(keys)], schemas=("mixed",), flagsets=(F_KEYSTRVAL, F_IGNORE_UNKNOWN))
+            add("distinct-titles-%d" % n, [X("".join("tm t%d { x = %d }\n" % (i, i) for i in range(n)))], flagsets=(0,))
+            add("distinct-appends-%d" % n, [X("".join("il += %d\nsl += e%d\n" % (i, i) for i in range(n)))], flagsets=(0,))
         for k in ENV_SIZES:
             add("tok-env-set-2e%d" % k, [X("s = \"x${B%d}y\"" % k)])
             add("tok-env-set-bare-2e%d" % k, [X("s = ${B%d}${B%d}" % (k, k))])
